@@ -6,6 +6,13 @@
 //
 //	NODE  ::= (st)             node 0 only: the static loader itself (px.StaticLoader()); it may be asked (has, get, disc) but
 //	                           no load / def / add may address it; the only core type name a line may use is Integer
+//	        | (stw)            node 0 only: the static loader as a WRITABLE node (load / def / add / rr may address it).  What is
+//	                           written into it stays for the life of the process, so every name of such a line is given a
+//	                           suffix `0<n>` no other line uses (stripped again from everything printed; identifier
+//	                           characters, because other lines' type-set loaders see these names through the static loader
+//	                           and call Parts() on them); names must be `::`-separated identifiers without digits (the key
+//	                           order is then the one of the names as written: the suffix sorts below every next byte, and the
+//	                           suffixed name is still one Parts() accepts); no (ts …) / (dep …) nodes
 //	        | (p P)            px.NewParentedLoader(parent), parent = node P, or the static loader when P = -1
 //	        | (f P)            the loader of ctx_P.Fork()  (Context.Fork creates a parented child loader); P >= 0
 //	        | (ts P)           px.NewTypeSetLoader(loader_P, TS) with the fixed type set TS = My {Foo = Integer[1,1],
@@ -24,6 +31,10 @@
 //	        | (get L NAME)     loader_L.GetEntry(NAME)              → found VAL | placeholder | absent
 //	        | (disc L P)       loader_L.Discover(ctx_L, pred P ∧ key used in this line), P = all | qual | type
 //	                                                                → [key*]   (map keys, hex)
+//	        | (reg xNAME N)    px.RegisterResolvableType(alias NAME=Integer[N,N]) — the process-wide list of declared types → ok
+//	        | (rr L)           px.ResolveResolvables(ctx_L): every declared type is defined in loader_L, in order of
+//	                           declaration; the first rejected one ends it (the ones behind it are lost)
+//	                                                                → ok | reported CODE | fault
 //
 // Output: the step answers joined by " ; ", then " | " and the final own contents of every loader
 // (`i:{key=VAL key=- …}`, keys sorted, `-` = cached-miss placeholder).
@@ -35,9 +46,11 @@ package c12
 
 import (
 	"fmt"
+	"regexp"
 	"sort"
 	"strconv"
 	"strings"
+	"sync/atomic"
 	"unicode/utf8"
 
 	"verif/harness/core"
@@ -150,12 +163,13 @@ func (r *refState) discover(l int, pred func(key string) bool) []string {
 
 // ---- op syntax ------------------------------------------------------------------------------------------
 
-type nameT struct{ ns, name, auth string }
+type nameT struct{ ns, name, auth, sfx string } // sfx: the per-line suffix of a (stw) line, never part of a key printed
 
 type valT struct {
 	kind string // t s al
 	name string
 	n    int64
+	sfx  string
 }
 
 type stepT struct {
@@ -221,13 +235,20 @@ func (v valT) build() interface{} {
 	case "s":
 		return types.WrapString(strconv.FormatInt(v.n, 10))
 	default:
-		return types.NewTypeAliasType(v.name, nil, types.NewIntegerType(v.n, v.n))
+		return types.NewTypeAliasType(v.name+v.sfx, nil, types.NewIntegerType(v.n, v.n))
 	}
 }
 
+var lineSuffix = regexp.MustCompile(`0[0-9]+$`)
+
+// unsfx strips the per-line suffix of a (stw) line from a name or key
+func unsfx(s string) string { return lineSuffix.ReplaceAllString(s, "") }
+
+var stwCounter int64
+
 // canon renders a value handed out by a loader
 func canon(v interface{}) string {
-	if t, ok := v.(px.Type); ok {
+	if t, ok := v.(px.Type); ok && !lineSuffix.MatchString(t.Name()) {
 		// the very object the static loader holds under that name
 		if e := px.StaticLoader().GetEntry(px.NewTypedName(px.NsType, t.Name())); e != nil && e.Value() == v {
 			return fmt.Sprintf("(core %s)", sx.Str(strings.ToLower(t.Name())))
@@ -236,7 +257,7 @@ func canon(v interface{}) string {
 	switch v := v.(type) {
 	case *types.TypeAliasType:
 		if it, ok := v.ResolvedType().(*types.IntegerType); ok {
-			return fmt.Sprintf("(al %s %d)", sx.Str(v.Name()), it.Min())
+			return fmt.Sprintf("(al %s %d)", sx.Str(unsfx(v.Name())), it.Min())
 		}
 	case *types.IntegerType:
 		return fmt.Sprintf("(t %d)", v.Min())
@@ -254,6 +275,12 @@ func hasStatic(tree sx.Sexp) bool {
 	return len(a) > 0 && a[0].Tag() == "st" && len(a[0].Args()) == 0
 }
 
+// hasStaticW: node 0 of the tree is the static loader, writable
+func hasStaticW(tree sx.Sexp) bool {
+	a := tree.Args()
+	return len(a) > 0 && a[0].Tag() == "stw" && len(a[0].Args()) == 0
+}
+
 // tsNodes: which nodes of the tree are type-set loaders
 func tsNodes(tree sx.Sexp) []bool {
 	var ts []bool
@@ -267,9 +294,13 @@ func parseLine(args []sx.Sexp) (parent []int, forked []bool, steps []stepT, deps
 	must(len(args) == 2 && args[0].Tag() == "tree" && args[1].Tag() == "steps", "shape")
 	isTS := tsNodes(args[0])
 	deps = parseDeps(args[0])
+	sfx := ""
+	if hasStaticW(args[0]) {
+		sfx = fmt.Sprintf("0%d", atomic.AddInt64(&stwCounter, 1))
+	}
 	for i, nd := range args[0].Args() {
 		a := nd.Args()
-		if nd.Tag() == "st" && len(a) == 0 {
+		if (nd.Tag() == "st" || nd.Tag() == "stw") && len(a) == 0 {
 			must(i == 0, "static loader elsewhere than at node 0")
 			parent = append(parent, -1)
 			forked = append(forked, false)
@@ -291,12 +322,35 @@ func parseLine(args []sx.Sexp) (parent []int, forked []bool, steps []stepT, deps
 	}
 	must(len(parent) > 0, "empty tree")
 	checkDeps(args[0], parent, deps, isTS)
+	for i := range parent {
+		must(sfx == "" || (!isTS[i] && deps[i] == nil), "type-set / dependency loader beside a writable static loader")
+	}
 	for _, s := range args[1].Args() {
 		a := s.Args()
-		must(len(a) >= 2, "step")
+		if s.Tag() == "reg" {
+			must(len(a) == 2, "step arity")
+			b, err := a[0].AsBytes()
+			must(err == nil && utf8.Valid(b), "reg hex")
+			n, err := a[1].AsInt()
+			must(err == nil && n >= 0, "reg int")
+			st := stepT{op: "reg", l: 0}
+			st.name = nameT{ns: "type", name: string(b), auth: string(px.RuntimeNameAuthority), sfx: sfx}
+			st.val = valT{kind: "al", name: string(b), n: n, sfx: sfx}
+			must(sfx == "" || bytesAbove(st.name), "name byte not above `0` in a (stw) line")
+			steps = append(steps, st)
+			continue
+		}
+		must(len(a) >= 1, "step")
 		l, err := a[0].AsInt()
 		must(err == nil && l >= 0 && int(l) < len(parent), "loader index")
 		st := stepT{op: s.Tag(), l: int(l)}
+		if st.op == "rr" {
+			must(len(a) == 1, "step arity")
+			must(!(hasStatic(args[0]) && st.l == 0), "the static loader is never written")
+			steps = append(steps, st)
+			continue
+		}
+		must(len(a) >= 2, "step")
 		switch st.op {
 		case "load", "has", "get":
 			must(len(a) == 2, "step arity")
@@ -321,6 +375,8 @@ func parseLine(args []sx.Sexp) (parent []int, forked []bool, steps []stepT, deps
 			panic(bad{"op"})
 		}
 		must(!(hasStatic(args[0]) && st.l == 0 && (st.op == "load" || st.op == "def" || st.op == "add")), "the static loader is never written")
+		st.name.sfx, st.val.sfx = sfx, sfx
+		must(sfx == "" || st.op == "disc" || bytesAbove(st.name), "name byte not above `0` in a (stw) line")
 		steps = append(steps, st)
 	}
 	return
@@ -388,7 +444,7 @@ func exec(c px.Context, op string, args []sx.Sexp) (res core.Result) {
 		}
 	}()
 	parent, forked, steps, deps := parseLine(args)
-	return run(c, parent, forked, tsNodes(args[0]), steps, hasStatic(args[0]), deps)
+	return run(c, parent, forked, tsNodes(args[0]), steps, hasStatic(args[0]), deps, hasStaticW(args[0]))
 }
 
 // the fixed type set of every type-set loader node, resolved once in a throw-away fork (so that none of its types gets
@@ -431,6 +487,7 @@ type world struct {
 	ctxs    []px.Context
 }
 
+// static: node 0 is the static loader itself (read-only `(st)` or writable `(stw)`)
 func build(parent []int, forked []bool, static bool, ts []bool, tset px.TypeSet, deps [][]depMod) *world {
 	w := &world{}
 	for i, p := range parent {
@@ -470,13 +527,35 @@ func build(parent []int, forked []bool, static bool, ts []bool, tset px.TypeSet,
 }
 
 func (n nameT) tn() px.TypedName {
-	return px.NewTypedName2(px.Namespace(n.ns), n.name, px.URI(n.auth))
+	return px.NewTypedName2(px.Namespace(n.ns), n.name+n.sfx, px.URI(n.auth))
+}
+
+var stwName = regexp.MustCompile(`\A(::)?[A-Za-z][A-Za-z_]*(::[A-Za-z][A-Za-z_]*)*\z`)
+
+// bytesAbove: the name of a (stw) line — `::`-separated identifiers without digits (with the suffix it stays a name Parts()
+// accepts, and every byte sorts above the `0` the suffix begins with), the namespace bytes above `0` as well
+func bytesAbove(n nameT) bool {
+	for _, b := range []byte(n.ns) {
+		if b <= 0x30 {
+			return false
+		}
+	}
+	return stwName.MatchString(n.name)
 }
 
 // coreKey: the map keys of the core types a line may name
 var coreKeys = map[string]string{string(px.RuntimeNameAuthority) + "/type/integer": "integer"}
 
-func run(c px.Context, parent []int, forked []bool, ts []bool, steps []stepT, static bool, deps [][]depMod) core.Result {
+func run(c px.Context, parent []int, forked []bool, ts []bool, steps []stepT, static bool, deps [][]depMod, staticW bool) core.Result {
+	// the process-wide list of declared types is empty at both ends of a line
+	types.PopDeclaredTypes()
+	defer types.PopDeclaredTypes()
+	sfx := ""
+	for _, s := range steps {
+		if s.name.sfx != "" {
+			sfx = s.name.sfx
+		}
+	}
 	anyTS := false
 	for _, b := range ts {
 		anyTS = anyTS || b
@@ -485,7 +564,7 @@ func run(c px.Context, parent []int, forked []bool, ts []bool, steps []stepT, st
 	if anyTS {
 		tset = typeSet(c)
 	}
-	w := build(parent, forked, static, ts, tset, deps)
+	w := build(parent, forked, static || staticW, ts, tset, deps)
 	ref := newRef(parent, true)
 	exact := newRef(parent, false) // the same reference without case folding: only used to NAME a failure `case-split`
 	copy(ref.ts, ts)
@@ -496,7 +575,7 @@ func run(c px.Context, parent []int, forked []bool, ts []bool, steps []stepT, st
 	// compared with the model, the property's reference has nothing to say about it
 	outside := false
 	for _, s := range steps {
-		if (s.op == "def" || s.op == "add") && deps[s.l] != nil {
+		if (s.op == "def" || s.op == "add" || s.op == "rr") && deps[s.l] != nil {
 			outside = true
 		}
 	}
@@ -505,7 +584,7 @@ func run(c px.Context, parent []int, forked []bool, ts []bool, steps []stepT, st
 	names := []nameT{}
 	keys := map[string]bool{}
 	for _, s := range steps {
-		if s.op != "disc" {
+		if s.op != "disc" && s.op != "rr" {
 			names = append(names, s.name)
 			keys[ref.key(s.name)] = true
 			if anyTS {
@@ -531,7 +610,7 @@ func run(c px.Context, parent []int, forked []bool, ts []bool, steps []stepT, st
 	for k := range keys {
 		// without a static node the static loader (ancestor of every root) must not know the names of the universe; with
 		// one, the only core type a line may name is the one the model preloads
-		if px.StaticLoader().HasEntry(px.TypedNameFromMapKey(k)) && !(static && coreKeys[k] != "") {
+		if px.StaticLoader().HasEntry(px.TypedNameFromMapKey(k+sfx)) && !(static && coreKeys[k] != "") {
 			return core.Result{Out: "bad-op", Pred: "n/a"}
 		}
 	}
@@ -568,6 +647,7 @@ func run(c px.Context, parent []int, forked []bool, ts []bool, steps []stepT, st
 	tags := map[string]bool{}
 	missed := map[string]bool{} // "L key": a lookup of key through L failed earlier
 	accepted, looked := false, false
+	var queue []stepT // the declared types not resolved yet
 
 	for si, s := range steps {
 		l := w.loaders[s.l]
@@ -687,17 +767,60 @@ func run(c px.Context, parent []int, forked []bool, ts []bool, steps []stepT, st
 			if want == "ok" && out == "ok" {
 				accepted = true
 			}
+		case "reg":
+			r := safely(func() { px.RegisterResolvableType(s.val.build().(px.ResolvableType)) })
+			out = r
+			if r == "" {
+				out = "ok"
+			}
+			queue = append(queue, s)
+		case "rr":
+			r := safely(func() { px.ResolveResolvables(ctx) })
+			out = r
+			if r == "" {
+				out = "ok"
+			}
+			// every declared type is defined in this loader, in order of declaration; the first rejected one ends it
+			want, wantX := "ok", "ok"
+			for _, q := range queue {
+				if want == "ok" {
+					want = ref.define(s.l, ref.key(q.name), q.val.String())
+				}
+				if wantX == "ok" {
+					wantX = exact.define(s.l, exact.key(q.name), q.val.String())
+				}
+			}
+			queue = nil
+			switch {
+			case out == "fault":
+			case want == "rejected" && out == "ok":
+				setFail(classOr("redefine-accepted", wantX == "ok"), fmt.Sprintf("%s: a declared type with a different value for a bound name was accepted", at))
+			case want == "ok" && out != "ok":
+				setFail(classOr("redefine-equal-rejected", wantX == "rejected"), fmt.Sprintf("%s: answered %s where the reference accepts every declared type", at, out))
+			case want == "rejected" && !strings.HasPrefix(out, "reported PCORE_ATTEMPT_TO_REDEFINE"):
+				setFail("redefine-accepted", fmt.Sprintf("%s: rejected with %s instead of a reported redefinition error", at, out))
+			}
+			if want == "ok" && out == "ok" {
+				accepted = true
+			}
 		case "disc":
 			looked = true
 			var found []px.TypedName
-			pred := func(tn px.TypedName) bool { return keys[tn.MapKey()] && keyPred(s.pred, tn.MapKey()) }
+			pred := func(tn px.TypedName) bool {
+				mk := tn.MapKey()
+				if !strings.HasSuffix(mk, sfx) {
+					return false
+				}
+				mk = mk[:len(mk)-len(sfx)]
+				return keys[mk] && keyPred(s.pred, mk)
+			}
 			r := safely(func() { found = l.Discover(ctx, pred) })
 			if r != "" {
 				out = r
 			} else {
 				ks := make([]string, len(found))
 				for i, tn := range found {
-					ks[i] = sx.Str(tn.MapKey()).String()
+					ks[i] = sx.Str(strings.TrimSuffix(tn.MapKey(), sfx)).String()
 				}
 				out = "[" + strings.Join(ks, " ") + "]"
 			}
@@ -735,7 +858,7 @@ func run(c px.Context, parent []int, forked []bool, ts []bool, steps []stepT, st
 		first := true
 		for _, k := range sortedKeys {
 			var e px.LoaderEntry
-			if r := safely(func() { e = l.GetEntry(px.TypedNameFromMapKey(k)) }); r != "" || e == nil {
+			if r := safely(func() { e = l.GetEntry(px.TypedNameFromMapKey(k + sfx)) }); r != "" || e == nil {
 				continue
 			}
 			if !first {
@@ -764,6 +887,9 @@ func run(c px.Context, parent []int, forked []bool, ts []bool, steps []stepT, st
 		if deps[i] != nil {
 			tags["tree:dep"] = true
 		}
+	}
+	if staticW {
+		tags["tree:stw"] = true
 	}
 	for t := range tags {
 		res.Tags = append(res.Tags, t)
@@ -965,6 +1091,7 @@ func gen(g *core.G) {
 	genDep(g, maxLen)
 	genCase(g)
 	genKey(g)
+	genStatic(g, maxLen)
 
 	// 2. random histories of length 40 (every third one: 3..8) over random trees of depth <= 3
 	r := g.Rng
@@ -977,9 +1104,14 @@ func gen(g *core.G) {
 		var tree []string
 		depth := []int{}
 		static := r.Intn(4) == 0
+		stw := static && r.Intn(2) == 0 // the static loader as a writable node
 		for j := 0; j < nl; j++ {
 			if static && j == 0 {
-				tree = append(tree, "(st)")
+				if stw {
+					tree = append(tree, "(stw)")
+				} else {
+					tree = append(tree, "(st)")
+				}
 				depth = append(depth, 0)
 				continue
 			}
@@ -1013,7 +1145,7 @@ func gen(g *core.G) {
 		}
 		// a dependency loader over one to three of the loaders so far (never the static one), with up to two loaders below it
 		dep := -1
-		if !tsLeaf && r.Intn(3) == 0 {
+		if !tsLeaf && !stw && r.Intn(3) == 0 {
 			first := 0
 			if static {
 				first = 1
@@ -1043,7 +1175,7 @@ func gen(g *core.G) {
 		if !tsLeaf && r.Intn(3) == 0 {
 			local[r.Intn(k)] = nm("Type", core.Pick(r, []string{"a", "A", "b"}), "r") // the namespace folds too
 		}
-		if !tsLeaf && r.Intn(4) == 0 {
+		if !tsLeaf && !stw && r.Intn(4) == 0 {
 			// letters outside ASCII: É/é, the Kelvin sign (lower case: the ASCII k), İ (lower case: the ASCII i), ǅ (title
 			// case), Ⱥ (its lower case is longer in UTF-8)
 			for j := 0; j < k; j++ {
@@ -1052,7 +1184,7 @@ func gen(g *core.G) {
 				}
 			}
 		}
-		if static {
+		if static && !stw {
 			local[0] = core.Pick(r, []string{nm("type", "Integer", "r"), nm("type", "integer", "r"), nm("type", "::INTEGER", "r")})
 		}
 		if tsLeaf {
@@ -1073,11 +1205,11 @@ func gen(g *core.G) {
 		for j := 0; j < hl; j++ {
 			l := r.Intn(nl)
 			x := local[r.Intn(k)]
-			op := r.Intn(10)
-			if static && l == 0 && (op < 6 || op == 9) {
+			op := r.Intn(12)
+			if static && !stw && l == 0 && (op < 6 || op == 9 || op == 11) {
 				op = 6 + r.Intn(3) // the static loader is only asked
 			}
-			if l == dep && (op >= 3 && op <= 5 || op == 9) && r.Intn(40) != 0 {
+			if l == dep && (op >= 3 && op <= 5 || op == 9 || op == 11) && r.Intn(40) != 0 {
 				op = r.Intn(3) // definitions addressed to the dependency loader itself are rare (outside the reference)
 			}
 			switch op {
@@ -1093,6 +1225,10 @@ func gen(g *core.G) {
 				steps = append(steps, fmt.Sprintf("(disc %d %s)", l, core.Pick(r, []string{"all", "all", "qual", "type"})))
 			case 9:
 				steps = append(steps, fmt.Sprintf("(add %d %s %d)", l, core.Pick(r, []string{"x61", "x41", "x62", "x6d3a3a61"}), 1+r.Intn(2)))
+			case 10:
+				steps = append(steps, fmt.Sprintf("(reg %s %d)", core.Pick(r, []string{"x61", "x41", "x62", "x6d3a3a61"}), 1+r.Intn(2)))
+			case 11:
+				steps = append(steps, fmt.Sprintf("(rr %d)", l))
 			}
 		}
 		g.Emit("hist (tree " + strings.Join(tree, " ") + ") (steps " + strings.Join(steps, " ") + ")")
@@ -1101,6 +1237,8 @@ func gen(g *core.G) {
 	// 3. malformed stream
 	for _, l := range []string{
 		"hist (tree (p -1)) (steps (load 0 (n type xc3 r)))", "hist (tree (p -1)) (steps (add 0 xff 1))",
+		"hist (tree (p -1) (stw)) (steps)", "hist (tree (stw)) (steps (reg x6120 1))", "hist (tree (st)) (steps (rr 0))", "hist (tree (p -1)) (steps (rr 1))",
+		"hist (tree (p -1)) (steps (reg x61))", "hist (tree (stw) (ts 0)) (steps)",
 		"hist (tree) (steps)", "hist (tree (p 0)) (steps)", "hist (tree (f -1)) (steps)", "hist (tree (p -1)) (steps (load 1 " + names[0] + "))",
 		"hist (tree (p -1)) (steps (frob 0))", "hist (tree (p -1))", "nop", "hist (tree (p -1)) (steps (def 0 " + names[0] + " (q 1)))",
 		"hist (tree (p -1)) (steps (disc 0 none))", "hist (tree (p -1)) (steps (load 0 (n type zz r)))",
